@@ -1,13 +1,158 @@
+"""C06 driver: pyvc harnesses (contracts/C06.py) + static read/write-set obligations for every
+LazyMutableClass subclass of the package (exhaustive over the class bodies' ASTs)."""
+import ast
+import os
+
 from props.common import run_pyvc
 from pyvc import runner
+from pyvc.report import Obligation, DISCHARGED, FAILED, REPO
 
 PID = "C06"
-FUNCS = []
+FUNCS = ["pyrex.internal_functions.lazy_property", "pyrex.internal_functions.LazyMutableClass.__init__",
+         "pyrex.internal_functions.LazyMutableClass.__setattr__", "pyrex.internal_functions.LazyMutableClass._clear_cache"] + \
+    ["pyrex.signals.FunctionSignal." + f for f in ("__init__", "_full_times", "_value_window", "values", "__add__", "__mul__",
+                                                   "__rmul__", "__imul__", "__truediv__", "__itruediv__", "copy", "resample",
+                                                   "with_times", "shift", "set_buffers", "filter_frequencies")]
+FILES = ["pyrex/ray_tracing.py", "pyrex/custom/layered_ice/ray_tracing.py"]   # ray tracer / ray path classes (signals: dynamic harnesses)
+
+
+def _self_reads(node, selfname="self"):
+    out = set()
+    for n in ast.walk(node):
+        if isinstance(n, ast.Attribute) and isinstance(n.value, ast.Name) and n.value.id == selfname and isinstance(n.ctx, ast.Load):
+            out.add(n.attr)
+    return out
+
+
+def static_obligations(rep):
+    classes = {}
+    for rel in FILES:
+        src = open(os.path.join(REPO, rel)).read()
+        tree = ast.parse(src)
+        for n in tree.body:
+            if isinstance(n, ast.ClassDef):
+                classes[n.name] = (n, rel)
+
+    def bases(c):
+        out = []
+        for b in classes[c][0].bases:
+            nm = b.id if isinstance(b, ast.Name) else getattr(b, "attr", None)
+            if nm in classes:
+                out.append(nm)
+                out.extend(bases(nm))
+            elif nm == "LazyMutableClass":
+                out.append(nm)
+        return out
+    for cname, (cnode, rel) in sorted(classes.items()):
+        bs = bases(cname)
+        if "LazyMutableClass" not in bs:
+            continue
+        # the __init__ that runs (own or inherited)
+        init = None
+        for k in [cname] + [b for b in bs if b in classes]:
+            for m in classes[k][0].body:
+                if isinstance(m, ast.FunctionDef) and m.name == "__init__":
+                    init = m
+                    break
+            if init is not None:
+                break
+        if init is None:
+            continue
+        before, after, explicit = [], [], None
+        seen_super = False
+        for st in init.body:
+            is_super = any(isinstance(c, ast.Call) and isinstance(c.func, ast.Attribute) and c.func.attr == "__init__"
+                           and isinstance(c.func.value, ast.Call) and getattr(c.func.value.func, "id", "") == "super"
+                           for c in ast.walk(st))
+            if is_super and not seen_super:
+                # the call that reaches LazyMutableClass.__init__ is the one with static_attributes / no args
+                for c in ast.walk(st):
+                    if isinstance(c, ast.Call):
+                        for kw in c.keywords:
+                            if kw.arg == "static_attributes" and isinstance(kw.value, (ast.List, ast.Tuple)):
+                                explicit = [e.value for e in kw.value.elts if isinstance(e, ast.Constant)]
+                if explicit is not None or not any(isinstance(c, ast.Call) and c.keywords for c in ast.walk(st)
+                                                   if isinstance(c, ast.Call) and isinstance(c.func, ast.Attribute) and c.func.attr == "__init__"):
+                    seen_super = True
+                    continue
+            for n in ast.walk(st):
+                targets = []
+                if isinstance(n, ast.Assign):
+                    targets = n.targets
+                    value = n.value
+                elif isinstance(n, ast.AugAssign):
+                    targets = [n.target]
+                    value = n.value
+                for t in targets:
+                    for e in ([t] if not isinstance(t, (ast.Tuple, ast.List)) else t.elts):
+                        if isinstance(e, ast.Attribute) and isinstance(e.value, ast.Name) and e.value.id == "self":
+                            (after if seen_super else before).append((e.attr, value, n.lineno))
+        static = explicit if explicit is not None else [a for a, _, _ in before if not a.startswith("_")]
+        fields = {a for a, _, _ in before + after}
+        props = {m.name for k in [cname] + [b for b in bs if b in classes] for m in classes[k][0].body
+                 if isinstance(m, ast.FunctionDef)}
+        # (1) fields derived from other attributes of self must not live outside the lazy cache
+        derived = []
+        for a, value, line in before + after:
+            if a in static or a.startswith("_lazy_"):
+                continue
+            reads = _self_reads(value) - {a}
+            if reads & (set(static) | fields | props):
+                derived.append("%s (line %d) is computed from self.%s but is neither a static attribute nor a lazy property"
+                               % (a, line, ", self.".join(sorted(reads & (set(static) | fields | props)))))
+        rep.add(Obligation("static:%s:no-untracked-derived-state" % cname, "ray-objects-read-write-sets",
+                           "%s (%s): every attribute computed in __init__ from other attributes is tracked by the cache mechanism"
+                           % (cname, rel), FAILED if derived else DISCHARGED, "ast", 0.0, detail="; ".join(derived),
+                           replay=dict(signature="static:" + cname) if derived else None))
+        # (2) no method memoises derived values in plain attributes (outside lazy_property)
+        memo = []
+        for k in [cname] + [b for b in bs if b in classes]:
+            for m in classes[k][0].body:
+                if isinstance(m, ast.FunctionDef) and m.name not in ("__init__", "__setattr__", "_clear_cache"):
+                    for n in ast.walk(m):
+                        if isinstance(n, ast.Assign):
+                            for t in n.targets:
+                                if isinstance(t, ast.Attribute) and isinstance(t.value, ast.Name) and t.value.id == "self" \
+                                        and t.attr.startswith("_") and not t.attr.startswith("_lazy_") \
+                                        and t.attr not in static and _self_reads(n.value) - {t.attr}:
+                                    memo.append("%s.%s assigns self.%s from other attributes (line %d)" % (k, m.name, t.attr, n.lineno))
+        rep.add(Obligation("static:%s:no-memoisation-outside-lazy-properties" % cname, "ray-objects-read-write-sets",
+                           "%s: methods do not cache derived values in plain private attributes" % cname,
+                           FAILED if memo else DISCHARGED, "ast", 0.0, detail="; ".join(memo),
+                           replay=dict(signature="static-memo:" + cname) if memo else None))
+        # (3) public instance fields read by the class's code are static attributes
+        untracked = []
+        for k in [cname] + [b for b in bs if b in classes]:
+            for m in classes[k][0].body:
+                if isinstance(m, ast.FunctionDef) and m.name != "__init__":
+                    for a in _self_reads(m):
+                        if a in fields and not a.startswith("_") and a not in static:
+                            untracked.append("%s.%s reads self.%s" % (k, m.name, a))
+        rep.add(Obligation("static:%s:public-fields-read-are-static" % cname, "ray-objects-read-write-sets",
+                           "%s: every public instance attribute read by its methods is in _static_attrs (%s)" % (cname, static),
+                           FAILED if untracked else DISCHARGED, "ast", 0.0, detail="; ".join(sorted(set(untracked)))[:800],
+                           replay=dict(signature="static-fields:" + cname) if untracked else None))
 
 
 def setup(rep):
     runner.hash_functions(rep, FUNCS)
-    rep.min_obligations = 3
+    rep.min_obligations = 40
+    static_obligations(rep)
+    rep.clause("function-signal-invariant", "B", "INV_lazy (cached value present => defining attributes structurally unchanged) is "
+               "established by the constructor and preserved by shift, *=, /=, filter_frequencies, set_buffers, resample, attribute "
+               "assignment; copy/+/*// results carry no inherited cache - symbolic state with 1-2 components")
+    rep.clause("read-set", "P", "FunctionSignal.values reads only the static attributes (dynamic read log over all paths)")
+    rep.clause("lazy-mutable-class", "P", "__setattr__ clears every cached value exactly on assignment to a static attribute; "
+               "lazy_property computes once and recomputes after a clear")
+    rep.clause("ray-objects-read-write-sets", "P", "static obligations over the ASTs of every LazyMutableClass subclass in the ray-tracing modules (tracers and paths): no attribute derived from other attributes lives outside the lazy cache, no "
+               "memoisation outside lazy properties, public fields read are static attributes")
+    rep.clause("eager-definition", "B", "_full_times/_value_window index facts and values[j] = sum of windowed, once-filtered, scaled "
+               "components (filter pipeline itself: C05)")
+    rep.clause("class-level-tuning-attributes", "N", "class attributes such as max_reflections or uniformity_factor are not defining "
+               "attributes of an instance; changing them on an instance after a query is not tracked (reported, not failed)")
+    rep.bounded.append("FunctionSignal state: 1 or 2 components, at most one filter per component")
+    rep.assume("A4 user callbacks (functions, filters) are deterministic and side-effect free")
+    rep.assume("A9 executor semantics of __setattr__/property/augmented assignment")
 
 
 def run(tier="quick", seed=0, only=None, verbose=False):
